@@ -20,3 +20,24 @@ package config
 //@   ensures [frame-bool] forall d *bool :: dest != any(d) ==> *d == old(*d)
 //@   ensures [frame-float] forall d *float64 :: dest != any(d) ==> *d == old(*d)
 //@   modifies heap(int), heap(time.Duration), heap(uint64), heap(string), heap(bool), heap(float64)
+
+// ---- "the displayable form of the configuration never contains the cluster secret, private keys or API credentials" ----
+// at the manager level: the displayable document is assembled from the components' displayable forms only.
+// rawFormN / displayFormN count the calls of ComponentConfig.ToJSON (the form with the secrets) / ToDisplayJSON.
+//@ ghost var rawFormN int
+//@ ghost var displayFormN int
+//@ interface ComponentConfig.ToJSON()
+//@   ensures rawFormN == old(rawFormN) + 1
+//@   modifies rawFormN
+//@ interface ComponentConfig.ToDisplayJSON()
+//@   ensures displayFormN == old(displayFormN) + 1
+//@   modifies displayFormN
+
+// the per-section step of Manager.ToDisplayJSON
+//@ closure Manager.ToDisplayJSON#1
+//@   property C15
+//@   ensures [never-the-raw-form] rawFormN == old(rawFormN)
+//@   ensures [every-component-displayed] err == nil ==> displayFormN == old(displayFormN) + len(section)
+//@   loop 1 (range section)
+//@     invariant rawFormN == old(rawFormN) && displayFormN == old(displayFormN) + cnt1
+//@   modifies *
